@@ -33,7 +33,7 @@ from qiskit.quantum_info import Pauli, PauliList
 
 from qiskit_addon_cutting import partition_problem, generate_cutting_experiments, cut_wires, expand_observables
 from qiskit_addon_cutting.cutting_decomposition import partition_circuit_qubits, cut_gates, decompose_observables
-from qiskit_addon_cutting.instructions import CutWire
+from qiskit_addon_cutting.instructions import CutWire, Move
 from qiskit_addon_cutting.qpd import TwoQubitQPDGate, SingleQubitQPDGate, generate_qpd_weights, WeightType
 from qiskit_addon_cutting.utils.observable_grouping import ObservableCollection
 import qiskit_addon_cutting.cutting_experiments as CE
@@ -67,6 +67,8 @@ def unfr(p):
 
 
 def mk_gate(name, params):
+    if name == "move":
+        return Move()
     cls = G1.get(name) or G2[name]
     return cls(*[unfr(p) for p in params])
 
@@ -853,6 +855,38 @@ def generate(rng, tier, outdir):
         if jc is not None:
             w.count("reset_tail.style", ["all_measured", "single_pauli_on_reset_qubit", "random"][style])
 
+    # ---- wire cuts WITH qubit re-use: a qubit is the source of one Move, is re-used (also as the SECOND operand of a two-qubit
+    #      gate) and later becomes the destination of another Move; plus plain reset / two-qubit gate / reset chains ----
+    n_reuse = 16 if tier == "quick" else 120
+    for i in range(n_reuse):
+        shape = int(rng.integers(0, 3))
+
+        def one(q):
+            nm = str(rng.choice(["h", "sx", "t", "ry", "rx"]))
+            return ["g", nm, [fr(ANGLES[int(rng.integers(0, len(ANGLES)))])] if nm in NPAR else [], [q]]
+        two = lambda a, b: ["g", str(rng.choice(["cx", "cz", "cx"])), [], [a, b] if rng.integers(0, 3) else [b, a]]
+        if shape == 0:      # A A B B: q1 -> q2 (cut), q1 re-used with q0, q3 -> q1 (cut)
+            nq, labels = 4, ["A", "A", "B", "B"]
+            items = [one(0), two(0, 1), one(1), ["g", "move", [], [1, 2]], one(2), two(2, 3), two(0, 1), one(0),
+                     ["g", "move", [], [3, 1]], one(1), two(0, 1)]
+        elif shape == 1:    # the seed's class: A A B B C with an extra gate cut
+            nq, labels = 5, ["A", "A", "B", "B", "C"]
+            items = [one(0), two(0, 1), ["g", "move", [], [1, 2]], two(2, 3), one(3), ["g", "cx", [], [0, 1]],
+                     ["g", "move", [], [3, 1]], one(1), ["g", "rzz", [fr(Fraction(3, 4))], [1, 4]], one(4)]
+        else:               # no cut needed: reset / gate with the qubit as second operand / reset, then more gates
+            nq, labels = 3, ["A", "A", "B"]
+            items = [one(0), ["reset", 1], ["g", "cx", [], [0, 1]], ["reset", 1], one(1), two(0, 1), ["g", "cz", [], [1, 2]], one(2)]
+        if rng.integers(0, 2):
+            items.insert(int(rng.integers(0, 3)), ["reset", int(rng.integers(0, nq))])
+        obs = ["".join(str(rng.choice(["X", "Y", "Z", "I"], p=[0.25, 0.2, 0.4, 0.15])) for _ in range(nq)) for _ in range(int(rng.integers(1, 3)))]
+        N = [[1, 1], [4, 1], [10, 1], [5, 2], [64, 1]][int(rng.integers(0, 5))]
+        d = dict(route="pp", nq=nq, labels=[tagged(l) for l in labels], mut=[], obs=obs, N=N,
+                 seed=int(rng.integers(0, 2 ** 31 - 1)), items=items)
+        jc, info = emit(w, d, "valid")
+        if jc is not None:
+            w.count("reuse.shape", ["two_moves", "two_moves_and_gate_cut", "plain_resets"][shape])
+            w.count("reuse.nsamples", info["nweights"])
+
     # ---- mostly-valid stream ----
     made = 0
     tries = 0
@@ -1004,7 +1038,8 @@ def generate(rng, tier, outdir):
              "barriers in the circuits; history mutations (placeholder definitions read before the call, an earlier generation on the same "
              "objects, one circuit object under two labels, cut ids written +k / 0k / ' k'); a near-cut-off stream (rzz angles 1e-4, "
              "2^-13, 2^-20, 2^-24 under N=inf and N>=1000); a many-cuts stream (11-13 cuts, two-digit cut ids, N<=10); a stream with a reset "
-             "as the last instruction on a measured qubit; a dedicated stream of rzz cuts under small "
+             "as the last instruction on a measured qubit; a re-use stream (hand-placed Moves whose source qubit is re-used, also as second "
+             "operand of a two-qubit gate, and later is the destination of another Move; reset / gate / reset chains); a dedicated stream of rzz cuts under small "
              "budgets {2.5,3,3.5,4,5,6} (EXACT and SAMPLED entries mixed, sampled entries outweighing exact ones, ties); sometimes pre-existing classical bits, "
              "observables dict in another order / missing a partition, trailing resets. Malformed stream: type mismatches both ways, "
              "num_samples in {0, 0.5, 0.999, -1, nan, -inf}, missing / non-numeric label suffix, shifted cut ids, foreign observable "
@@ -1070,6 +1105,101 @@ def _reset_rule(expected, got, nq, ignore_last):
             if 0 < k < len(re_) - 1 and a > 0 and b == 0:
                 return (f"qubit {q}: a reset between two other instructions of the wire was removed "
                         f"(neither leading, nor final, nor a duplicate)")
+    return None
+
+
+# ---- exact outcome law of a small circuit (independent branch simulator; used by judge's distribution clause) ----
+_GATE_CACHE = {}
+
+
+def _gate_matrix(name, params):
+    key = (name, tuple(params))
+    if key not in _GATE_CACHE:
+        from qiskit.circuit.library import get_standard_gate_name_mapping
+        mp = get_standard_gate_name_mapping()
+        if name not in mp:
+            raise KeyError(name)
+        cls = type(mp[name])
+        _GATE_CACHE[key] = np.asarray(cls(*params).to_matrix(), dtype=complex)
+    return _GATE_CACHE[key]
+
+
+def _apply(vec, mat, qubits, n):
+    k = len(qubits)
+    psi = vec.reshape([2] * n)
+    axes = [n - 1 - q for q in qubits]                       # axis of qubit q (little endian)
+    m = mat.reshape([2] * (2 * k))
+    in_axes = list(range(2 * k - 1, k - 1, -1))              # input index of operand 0, 1, ...
+    psi = np.tensordot(m, psi, axes=(in_axes, axes))
+    psi = np.moveaxis(psi, list(range(k)), [n - 1 - q for q in reversed(qubits)])
+    return psi.reshape(-1)
+
+
+def _outcome_law(n, ncl, ops, gates):
+    """ops: canonical instructions ({op, qs, cs}; gate ops carry only the id, `gates` maps id -> (name, params)).
+    Returns {clbit tuple: probability}.  Raises KeyError for an operation it cannot interpret."""
+    v0 = np.zeros(2 ** n, dtype=complex)
+    v0[0] = 1.0
+    branches = [((0,) * ncl, v0)]
+    for ins in ops:
+        kind = ins["op"][0]
+        if kind == "barrier":
+            continue
+        new = []
+        for cl, vec in branches:
+            if kind == "gate":
+                name, params = gates[ins["op"][1]]
+                new.append((cl, _apply(vec, _gate_matrix(name, params), ins["qs"], n)))
+            elif kind in ("measure", "reset"):
+                q = ins["qs"][0]
+                psi = vec.reshape([2] * n)
+                for out in (0, 1):
+                    pr = np.zeros_like(psi)
+                    idx = [slice(None)] * n
+                    idx[n - 1 - q] = out
+                    pr[tuple(idx)] = psi[tuple(idx)]
+                    if float(np.vdot(pr, pr).real) < 1e-16:
+                        continue
+                    if kind == "measure":
+                        c = list(cl)
+                        c[ins["cs"][0]] = out
+                        new.append((tuple(c), pr.reshape(-1)))
+                    else:
+                        if out == 1:                          # reset: flip |1> back to |0>
+                            pr = np.flip(pr, axis=n - 1 - q)
+                        new.append((cl, pr.reshape(-1)))
+            else:
+                raise KeyError(kind)
+        # merge branches with equal classical bits only at the end (states differ): keep as is, bounded by #measurements
+        branches = new
+        if len(branches) > 4096:
+            raise KeyError("too many branches")
+    law = {}
+    for cl, vec in branches:
+        law[cl] = law.get(cl, 0.0) + float(np.vdot(vec, vec).real)
+    return law
+
+
+def _law_problem(n, ncl, expected, got, gates, ignore=()):
+    """the joint law of the classical bits of the returned circuit equals that of the un-optimised spliced reference
+    (bits in `ignore` are marginalised: the placeholder bit of an identity group carries no information by contract)."""
+    try:
+        a = _outcome_law(n, ncl, expected, gates)
+        b = _outcome_law(n, ncl, got, gates)
+    except KeyError:
+        return None                                           # an operation outside the simulator: clause not applicable
+    if ignore:
+        def marg(law):
+            out = {}
+            for k, v in law.items():
+                kk = tuple(x for i, x in enumerate(k) if i not in ignore)
+                out[kk] = out.get(kk, 0.0) + v
+            return out
+        a, b = marg(a), marg(b)
+    for k in set(a) | set(b):
+        if abs(a.get(k, 0.0) - b.get(k, 0.0)) > 1e-9:
+            return (f"outcome {k} of the classical bits has probability {b.get(k, 0.0):.6g} in the returned circuit but "
+                    f"{a.get(k, 0.0):.6g} in the spliced reference")
     return None
 
 
@@ -1240,6 +1370,28 @@ def judge(case):
             return f"infinite budget: coefficient {z} = {got} but product of map coefficients = {p}"
         return None
 
+    # id -> (name, params) of every ordinary gate that occurs in the request or in the returned circuits
+    gates = {}
+
+    def _collect(data):
+        for ins in data:
+            if ins["op"][0] == "gate" and len(ins["op"]) >= 4 and all(isinstance(x, (int, float)) for x in ins["op"][3]):
+                gates[ins["op"][1]] = (ins["op"][2], list(ins["op"][3]))
+
+    if case["circuits"][0] == "single":
+        _collect(case["circuits"][1]["data"])
+    elif case["circuits"][0] == "dict":
+        for e in case["circuits"][1]:
+            _collect(e[2]["data"])
+    if impl[1][0] == "list":
+        for mcx in impl[1][1]:
+            _collect(mcx["data"])
+    elif impl[1][0] == "dict":
+        for e in impl[1][1]:
+            for mcx in e[2]:
+                _collect(mcx["data"])
+    law_budget = [24]          # distribution clause on a sample of sub-experiments per case (cost)
+
     def block_problem(z, i):
         joint = weights[i][0]
         for (l, mc, groups, got, G) in usable:
@@ -1256,6 +1408,12 @@ def judge(case):
                 if why:
                     return (f"partition {l} circuit {z * G + j} (sample {z}, group {j}, joint map {joint}) is not the direct splice followed "
                             f"by the measurement suffix up to removable resets: {why}")
+                if law_budget[0] > 0 and mc["nq"] <= 6 and any(x["op"][0] == "reset" for x in exp):
+                    law_budget[0] -= 1
+                    why = _law_problem(mc["nq"], mc["nc"] + nobs + nqpd, exp, gd, gates, ignore=() if pidx else (mc["nc"],))
+                    if why:
+                        return (f"partition {l} circuit {z * G + j} (sample {z}, group {j}, joint map {joint}) does not behave like the "
+                                f"subcircuit with the chosen maps spliced in, followed by the measurements: {why}")
                 nc0 = mc["nc"]
                 regs = g["cregs"]
                 if (len(regs) < 2 or regs[-2] != [OBS_NAME, list(range(nc0, nc0 + nobs))]
